@@ -278,6 +278,10 @@ class Gen:
             weights.update(time_at=7, action=7, wait=3, loop=3 if depth > 0 else 0, setreg=4)
         if self.nest > 0 or scope.in_routine:
             weights.update(units=0, time_at=0, macro=0)
+            if self.strict_out:
+                # whether a setting read back from a light is 3500 or 3500.0 is not documented, and a routine may be
+                # called in the middle of an expression whose text is compared exactly
+                weights.update(get=0)
             if self.time_is_pattern:
                 pass
         if self.in_matrix:
